@@ -7,7 +7,7 @@
     VCC, EXEC, M0, PC, every other SGPR/VGPR, memory and LDS. *)
 From Coq Require Import ZArith List Bool Lia.
 Import ListNotations.
-From VIsa Require Import IsaState ExecImpl ExecSpec ExecImplV ExecSpecV ExecProofs ExecRows ExecVProofs ExecVRowsA ExecVThm ExecRefute.
+From VIsa Require Import IsaState ExecImpl ExecSpec ExecImplV ExecSpecV ExecProofs ExecRows ExecVProofs ExecVRowsA ExecBrev ExecVProofs64 ExecVRows64 ExecVThm ExecRefute.
 Open Scope Z_scope.
 
 (** SOP2, 32-bit rows: every opcode either ALU implements (after the repairs of
@@ -45,6 +45,11 @@ Theorem impl_eq_spec_sop1_saveexec : forall a st i, wf st -> i_fmt i = F_SOP1 ->
   In (i_op i) saveexec_ops -> 0 <= i_lit i < W32 -> adm64 (i_src0 i) -> admd64 (i_dst i) -> agree a st i.
 Proof. exact sop1_saveexec_agree. Qed.
 Print Assumptions impl_eq_spec_sop1_saveexec.
+
+Theorem impl_eq_spec_sop1_brev : forall a st i, i_op i = 8 -> wf st -> i_fmt i = F_SOP1 ->
+  0 <= i_lit i < W32 -> adm32 true (i_src0 i) -> admd32 (i_dst i) -> agree a st i.
+Proof. exact sop1_brev_agree. Qed.
+Print Assumptions impl_eq_spec_sop1_brev.
 
 (** SOPK: S_MOVK_I32, S_CMOVK_I32, S_CMPK_EQ_I32, S_CMPK_LG_I32, S_MULK_I32, every
     immediate, every destination kind. *)
@@ -118,6 +123,19 @@ Theorem impl_eq_spec_vector : forall a st i,
   agree_v a st i.
 Proof. exact vector_agree. Qed.
 Print Assumptions impl_eq_spec_vector.
+
+(** Rows with 64-bit operands or destination (both ALUs): v_cmp_*_u64 (VOPC and
+    the VOP3a v_cmp_lt_u64), v_mad_u64_u32 (value; the carry-out SGPR pair of
+    the hardware instruction is not modelled), v_lshlrev_b64, v_ashrrev_i64.
+    [modes_of] says how each operand is read; a 64-bit operand is a VGPR pair
+    v[n:n+1] (n <= 254) or of kind [adm64]. *)
+Theorem impl_eq_spec_vector64 : forall a st i,
+  In (i_fmt i, i_op i) vrows64 -> wf st -> 0 <= i_lit i < W32 ->
+  (forall d r, vdesc_of a (i_fmt i) (i_op i) = Some d -> vrow_of a (i_fmt i) (i_op i) = Some r ->
+     let '(m0, m1, m2) := modes_of (i_fmt i) (i_op i) in vadm64 m0 m1 m2 d r i) ->
+  agree_v a st i.
+Proof. exact vector_agree64. Qed.
+Print Assumptions impl_eq_spec_vector64.
 
 Theorem impl_eq_spec_readfirstlane : forall a st i, i_fmt i = F_VOP1 -> i_op i = 2 -> wf st ->
   0 <= i_lit i < W32 -> admv (i_src0 i) -> admd32 (i_dst i) -> agree_v a st i.
